@@ -150,10 +150,12 @@ func vGenTS(tier int) IndividualTrafficSelectorContainer {
 		n = vr.IntIn(1, 2)
 	case 2:
 		n = vr.IntIn(1, 3)
+	case 7:
+		n = 255 // the largest selector count the one-octet field can state (types alternate)
 	}
 	for i := 0; i < n; i++ {
 		ts := &IndividualTrafficSelector{IPProtocolID: vr.U8(), StartPort: vr.U16(), EndPort: vr.U16()}
-		if tier < 0 || vr.IntIn(0, 1) == 0 {
+		if tier < 0 || (tier == 7 && i%2 == 0) || (tier != 7 && vr.IntIn(0, 1) == 0) {
 			ts.TSType = TS_IPV4_ADDR_RANGE
 			ts.StartAddress, ts.EndAddress = vr.Bytes(4), vr.Bytes(4)
 		} else {
